@@ -162,9 +162,20 @@ func extractReceiverInfo(pass *analysis.Pass, funcDecl *ast.FuncDecl) *receiverI
 // promoted through embedded fields (x.f standing for x.E.f), the type of the innermost embedded field.
 func fieldOwnerType(pass *analysis.Pass, selector *ast.SelectorExpr) types.Type {
 	xType := pass.TypesInfo.TypeOf(selector.X)
+	// x.f also stands for (*x).f when x is of a defined pointer type (type P *T)
+	if xType != nil {
+		if _, plain := types.Unalias(xType).(*types.Pointer); !plain {
+			if ptr, ok := xType.Underlying().(*types.Pointer); ok {
+				xType = ptr.Elem()
+			}
+		}
+	}
 
 	selection := pass.TypesInfo.Selections[selector]
 	if selection == nil || selection.Kind() != types.FieldVal {
+		return xType
+	}
+	if len(selection.Index()) == 1 {
 		return xType
 	}
 
